@@ -108,8 +108,12 @@ def generate(tier, rng):
         lo, hi = lims(s, n)
         k = rng.choice([1, 1, 3])
         vs = []
+        sliver = rng.random() < 0.25
         for _ in range(k):
             x = G.rand_scaled(rng, s, n)           # inner scaled value in quarter LSBs
+            if sliver:
+                # a code plus or minus a sliver of an LSB (2^-12 .. 2^-36): still inexact — the flag is owed however small the residual
+                x = Fraction(int(x)) + rng.choice([1, -1]) * Fraction(1, 1 << rng.choice([12, 20, 28, 33, 36]))
             inner = x / Fraction(2) ** f
             v = sc * inner + bi
             vs.append(v)
